@@ -27,3 +27,13 @@ Theorem C18_rerun_valid : forall M o solve out,
   valid_b (o_pc o) M (matching_of M (val_fun (out_vals out))) = true.
 Proof. exact reported_valid. Qed.
 Print Assumptions C18_rerun_valid.
+
+(* the Solver OBJECT solved twice (any limits, any clock readings, any two correct back ends): the second solve gives
+   the same status and logs the same lines; nothing of the first solve's values, status or timings flows into it *)
+Theorem C18_resolve_object : forall s lim1 e1 s1 lim2 e2 s2,
+  s_bf s = false ->
+  milp_ok (s_inst s) (e_solve e1) -> milp_ok (s_inst s) (e_solve e2) ->
+  do_solve s lim1 e1 = Ok s1 -> do_solve s1 lim2 e2 = Ok s2 ->
+  s_status s2 = s_status s1 /\ s_info s2 = s_info s1.
+Proof. exact resolve_reproducible. Qed.
+Print Assumptions C18_resolve_object.
